@@ -121,9 +121,11 @@ let explore c nw maxsends sizes kinds maxstates errs =
   let key s b = state_s s ^ "#" ^ si b in
   Hashtbl.add seen (key s0 maxsends) (); Queue.add (s0, maxsends, []) q;
   let trans = ref 0 and bad = ref 0 and kf = ref 0 and quies = ref 0 and trunc = ref false
-  and wit = ref "" and kwit = ref "" in
+  and wit = ref "" and kwit = ref "" and invbad = ref 0 and iwit = ref "" in
   while not (Queue.is_empty q) do
     let (s, b, path) = Queue.pop q in
+    if not (inv_ok c s) then begin
+      incr invbad; if !iwit = "" then iwit := String.concat " " (List.rev path) ^ " => " ^ state_s s end;
     if quiescent s then begin
       incr quies;
       if not (c05_ok s) then begin
@@ -143,8 +145,9 @@ let explore c nw maxsends sizes kinds maxstates errs =
           else begin Hashtbl.add seen k (); Queue.add (s', b', choice_s ch :: path) q end)
       (choices s sizes kinds b errs)
   done;
-  Printf.sprintf "states=%d transitions=%d quiescent=%d bad=%d kf=%d truncated=%s%s%s" (Hashtbl.length seen) !trans !quies
-    !bad !kf (b01 !trunc) (if !wit = "" then "" else " witness=" ^ !wit) (if !kwit = "" then "" else " kfwitness=" ^ !kwit)
+  Printf.sprintf "states=%d transitions=%d quiescent=%d bad=%d kf=%d invbad=%d truncated=%s%s%s%s" (Hashtbl.length seen) !trans !quies
+    !bad !kf !invbad (b01 !trunc) (if !wit = "" then "" else " witness=" ^ !wit) (if !kwit = "" then "" else " kfwitness=" ^ !kwit)
+    (if !iwit = "" then "" else " invwitness=" ^ !iwit)
 
 (* ---- alignment of a real trace -------------------------------------------------
    trace LOOKAHEAD SB HW POLL2 NW MODE EV ...
